@@ -275,7 +275,7 @@ def run(ctx):
     env = L.env_for(jinja2, lc)
     pairs = []
     for with_comments in (False, True):
-        for _ in range(ctx.size(4000, 40000)):
+        for _ in range(ctx.size(4000, 25000)):
             lines = gen_lines(ctx.rng, with_comments)
             # "not followed by blank lines": generator emits no empty text lines
             fin = ctx.rng.random() < 0.5
@@ -305,6 +305,18 @@ def run(ctx):
     run_line_skeletons(ctx, jinja2)
     run_loader_overlays(ctx, jinja2, cfgs, tags1)
     run_expr_delims(ctx, jinja2, settings)
+    for nme in ("angle", "dollar"):
+        c2 = L.Cfg(nme)
+        src = "{% set x = 1 %}<% set y = 2 %>$% set z = 3 %$|{{ 1 }}<%= 2 %>${ 3 }"
+        got, want = L.probe_shared_bytecode_cache(jinja2, {}, {k_: v for k_, v in c2.kwargs().items() if k_.endswith("_string")}, src)
+        case = {"kind": "shared-bytecode-cache", "cfg": c2.describe(), "src": src}
+        ctx.case(sample=case, key=("bcc", nme))
+        ctx.count("shared_bytecode_cache_probe")
+        if got != want:
+            ctx.reject(case, "second environment on the shared bytecode cache renders %r, without the cache %r" % (got, want),
+                       "C13:shared-bytecode-cache-ignores-delimiters")
+        else:
+            ctx.validated()
 
 
 def run_loader_overlays(ctx, jinja2, cfgs, tags1):
@@ -419,7 +431,7 @@ def run_expr_delims(ctx, jinja2, settings):
     names = ["default", "angle", "dollar", "asp", "linepct"]
     datas = [dict(x="xs", m={"a": 1}, n=1, t=("p", "q")), dict(x=Markup("<b>"), m=_NS(), n=True, t=["p", "q"]),
              dict(x=L._S("sub"), m={"a": [1]}, n=1.0, t=iter(["p", "q"]))]
-    for j in range(ctx.size(1000, 25000)):
+    for j in range(ctx.size(1000, 12000)):
         segs = gen_expr_template(ctx.rng)
         t_, l_ = ctx.rng.choice(settings)
         nl = ctx.rng.choice(["\n", "\n", "\r\n"])
@@ -508,6 +520,13 @@ def replay(ctx, data):
         print("replay: this file names a broken theorem/correspondence, not an input:", data.get("broken"))
         return run(ctx)
     kind = case.get("kind")
+    if kind == "shared-bytecode-cache":
+        c2 = L.Cfg.from_desc(case["cfg"])
+        got, want = L.probe_shared_bytecode_cache(jinja2, {}, {k_: v for k_, v in c2.kwargs().items() if k_.endswith("_string")}, case["src"])
+        print("shared bytecode cache:", got, "without:", want)
+        if got != want:
+            ctx.reject(case, "shared bytecode cache: %r vs %r" % (got, want), data.get("signature"))
+        return
     if kind == "expr-delims":
         outs = {}
         for nme, src in case["sources"].items():
